@@ -332,9 +332,21 @@ fn codepoints_from_class_positive(ct: CharacterClassType) -> CodePointSet {
 }
 
 /// Returns code points for a character class, optionally inverted.
-fn codepoints_from_class(ct: CharacterClassType, positive: bool) -> CodePointSet {
+/// In Unicode ignore-case mode the inverted classes (\W etc.) are the complement of the
+/// case-closed positive set, so that e.g. `[\W]` excludes U+017F and U+212A just like `\W`.
+fn codepoints_from_class(
+    ct: CharacterClassType,
+    positive: bool,
+    unicode_icase: bool,
+) -> CodePointSet {
     let cps = codepoints_from_class_positive(ct);
-    if positive { cps } else { cps.inverted() }
+    if positive {
+        cps
+    } else if unicode_icase {
+        unicode::add_icase_code_points(cps).inverted()
+    } else {
+        cps.inverted()
+    }
 }
 
 /// \return a Bracket for a given character escape (positive or negative).
@@ -351,14 +363,15 @@ fn make_bracket_class(ct: CharacterClassType, positive: bool, icase: bool) -> ir
     ir::Node::Bracket(BracketContents { invert: false, cps })
 }
 
-fn add_class_atom(bc: &mut BracketContents, atom: ClassAtom) {
+fn add_class_atom(bc: &mut BracketContents, atom: ClassAtom, unicode_icase: bool) {
     match atom {
         ClassAtom::CodePoint(c) => bc.cps.add_one(c),
         ClassAtom::CharacterClass {
             class_type,
             positive,
         } => {
-            bc.cps.add_set(codepoints_from_class(class_type, positive));
+            bc.cps
+                .add_set(codepoints_from_class(class_type, positive, unicode_icase));
         }
         ClassAtom::Range { iv, negate } => {
             if negate {
@@ -839,6 +852,7 @@ where
             cps: CodePointSet::default(),
         };
 
+        let unicode_icase = self.flags.unicode && self.flags.icase;
         loop {
             match self.peek().map(to_char_sat) {
                 None => {
@@ -861,14 +875,14 @@ where
 
             // Check for a dash; we may have a range.
             if !self.try_consume('-') {
-                add_class_atom(&mut result, first);
+                add_class_atom(&mut result, first, unicode_icase);
                 continue;
             }
 
             let Some(second) = self.try_consume_bracket_class_atom()? else {
                 // No second atom. For example: [a-].
-                add_class_atom(&mut result, first);
-                add_class_atom(&mut result, ClassAtom::CodePoint(u32::from('-')));
+                add_class_atom(&mut result, first, unicode_icase);
+                add_class_atom(&mut result, ClassAtom::CodePoint(u32::from('-')), unicode_icase);
                 continue;
             };
 
@@ -893,9 +907,9 @@ where
             }
 
             // If it does not match a range treat as any match single characters.
-            add_class_atom(&mut result, first);
-            add_class_atom(&mut result, ClassAtom::CodePoint(u32::from('-')));
-            add_class_atom(&mut result, second);
+            add_class_atom(&mut result, first, unicode_icase);
+            add_class_atom(&mut result, ClassAtom::CodePoint(u32::from('-')), unicode_icase);
+            add_class_atom(&mut result, second, unicode_icase);
         }
     }
 
@@ -1238,32 +1252,32 @@ where
                     // CharacterClassEscape :: d
                     0x64 /* d */ => {
                         self.consume('d');
-                        Ok(CharacterClassEscape(codepoints_from_class(CharacterClassType::Digits, true)))
+                        Ok(CharacterClassEscape(codepoints_from_class(CharacterClassType::Digits, true, self.flags.icase)))
                     }
                     // CharacterClassEscape :: D
                     0x44 /* D */ => {
                         self.consume('D');
-                        Ok(CharacterClassEscape(codepoints_from_class(CharacterClassType::Digits, false)))
+                        Ok(CharacterClassEscape(codepoints_from_class(CharacterClassType::Digits, false, self.flags.icase)))
                     }
                     // CharacterClassEscape :: s
                     0x73 /* s */ => {
                         self.consume('s');
-                        Ok(CharacterClassEscape(codepoints_from_class(CharacterClassType::Spaces, true)))
+                        Ok(CharacterClassEscape(codepoints_from_class(CharacterClassType::Spaces, true, self.flags.icase)))
                     }
                     // CharacterClassEscape :: S
                     0x53 /* S */ => {
                         self.consume('S');
-                        Ok(CharacterClassEscape(codepoints_from_class(CharacterClassType::Spaces, false)))
+                        Ok(CharacterClassEscape(codepoints_from_class(CharacterClassType::Spaces, false, self.flags.icase)))
                     }
                     // CharacterClassEscape :: w
                     0x77 /* w */ => {
                         self.consume('w');
-                        Ok(CharacterClassEscape(codepoints_from_class(CharacterClassType::Words, true)))
+                        Ok(CharacterClassEscape(codepoints_from_class(CharacterClassType::Words, true, self.flags.icase)))
                     }
                     // CharacterClassEscape :: W
                     0x57 /* W */ => {
                         self.consume('W');
-                        Ok(CharacterClassEscape(codepoints_from_class(CharacterClassType::Words, false)))
+                        Ok(CharacterClassEscape(codepoints_from_class(CharacterClassType::Words, false, self.flags.icase)))
                     }
                     // CharacterClassEscape :: [+UnicodeMode] p{ UnicodePropertyValueExpression }
                     0x70 /* p */ => {
